@@ -25,7 +25,25 @@ private def fbit (name : String) : Option (St → Nat → Nat → St) :=
   | "as3_combit" => some mpz_combit
   | _ => none
 
+private def run2 (f : St → Nat → Nat → St) (m : Int) (w u : Obj) : Option (List Tok) :=
+  let s := heap w u u
+  match m with
+  | 0 => some (outW (f s 0 1) 0)
+  | 1 => some (outW (f s 1 1) 1)
+  | _ => none
+
+private def fcnt (name : String) : Option (St → Nat → Nat → Nat → St) :=
+  match name with
+  | "as3_cdiv_q_2exp" => some mpz_cdiv_q_2exp
+  | "as3_fdiv_q_2exp" => some mpz_fdiv_q_2exp
+  | _ => none
+
 def handle : Handler
+  | name, [.num m, .num wa, .num wv, .num ua, .num uv, .num cnt] => do
+      let f ← fcnt name
+      if !(0 ≤ cnt && cnt < 2 ^ 26) then none else
+      let w ← mk? wa wv; let u ← mk? ua uv
+      run2 (fun s a b => f s a b cnt.toNat) m w u
   | name, [.num da, .num dv, .num idx] => do
       let f ← fbit name
       if !(0 ≤ idx && idx < 2 ^ 26) then none else
